@@ -301,6 +301,8 @@ class BasisSHO(BasisSet):
                     - self.op_mat(r"b^\dagger b^\dagger")
                     - self.op_mat(r"b b^\dagger")
                     + self.op_mat(r"b^\dagger b"))
+            # x = y + x0 with the shifted origin (as in "x" and "x^2")
+            mat = mat + self.x0 * self.op_mat("p")
 
         elif op_symbol == "x dx":
             # x dx is real, while x p is imaginary
@@ -311,6 +313,8 @@ class BasisSHO(BasisSet):
                     - self.op_mat(r"b^\dagger b^\dagger")
                     + self.op_mat(r"b b^\dagger")
                     - self.op_mat(r"b^\dagger b"))
+            # x = y + x0 with the shifted origin (as in "x" and "x^2")
+            mat = mat + self.x0 * self.op_mat("p")
 
         elif op_symbol == "dx x":
             mat = (self.op_mat("p x") / -1.0j).real
